@@ -446,6 +446,16 @@ def judge(rr, ctx):
                      for f in faults})
 
     phase = {"post": False}
+    if not hid:
+        # a confirmation that came later than its timeout without any injected
+        # fault (a 24-bit send-twice frame on a slow link): same history as the
+        # injected "late-confirm" fault
+        for s_ in rr.dev.sends:
+            if s_.get("conf_arrival_us") is not None and \
+                    s_["conf_arrival_us"] - s_["t_us"] > CONF_TO[drv] * 1e6 and "late-confirm" not in fkinds:
+                fkinds = sorted(fkinds + ["late-confirm"])
+                rr.world.probe("organic-late-confirm")
+                break
 
     def V(clause, detail, site=None):
         if phase["post"] and clause in ("answer-lost", "answer-of-other-command", "wrong-answer",
